@@ -159,7 +159,7 @@ def run(tier, seed):
     Ns = [8, 130] if tier == 'quick' else [8, 130, 400]
     for cfg in core:
         for N in Ns:
-            D = 2 if (tier == 'thorough' or N == 8) else 1
+            D = 2 if N == 8 else 1
             units += ex.dev_units(cfg, entropy, N, D, nchunks=8 if N == 8 else 24, kinds=KINDS)
     # tens of thousands of consecutive small steps forward and then backward (through ReverseBrownian), on the object
     long_cfgs = [(bmm.cfg_make(size=(1, 1), levy='none', cache_size=45), 25000),
@@ -174,8 +174,11 @@ def run(tier, seed):
                  (bmm.cfg_make(size=(1, 1), levy='space-time', cache_size=45, dt=0.5), 1500),
                  (bmm.cfg_make(size=(1, 1), levy='none', cache_size=10, dt=0.5), 1500)]
     if tier == 'thorough':
+        # (a thorough run with every sweep at full length and cache_size=0 at 3000 steps did not finish in 2 h on 16
+        # cores: without a cache every query recomputes along the whole chain, O(N^2))
+        long_cfgs = [(c, N if i in (0, 1, 2, 4, 7) else min(N, 3000)) for i, (c, N) in enumerate(long_cfgs)]
         long_cfgs += [(bmm.cfg_make(size=(1, 1), levy='space-time', cache_size=45), 60000),
-                      (bmm.cfg_make(size=(1, 1), levy='none', cache_size=0), 3000)]
+                      (bmm.cfg_make(size=(1, 1), levy='none', cache_size=0), 600)]
     else:
         # quick: the two cheapest 25000-step sweeps and short versions of the others (each query of a 25000-step
         # sweep is re-checked against its first answer and metered: ~0.5 ms per query)
